@@ -173,7 +173,8 @@ def leg_loop(part, tier, shard, nshards):
 # -- sessions: several calls on one proxy (state carried from one call to the next) ------------------------
 
 
-SESSION_STEPS = [("f", "pos1"), ("ns.f", "kw2"), ("a.b.c", "pos2"), ("BATCH", ""), ("NOTIFY", "pos1"), ("REREG", "f"), ("REREG", "a.b.c"), ("REREG", "ns.f"), ("CLEAR", "")]
+SESSION_STEPS = [("f", "pos1"), ("ns.f", "kw2"), ("a.b.c", "pos2"), ("BATCH", ""), ("NOTIFY", "pos1"), ("REREG", "f"), ("REREG", "a.b.c"), ("REREG", "ns.f"), ("CLEAR", ""),
+                 ("MC-NOTIFS", ""), ("MC-CALL", "")]  # the last two use one MultiCall object for the whole session
 
 
 def session_cases(tier):
@@ -198,6 +199,7 @@ def check_session(case):
     hist = History()
     proxy = jsonrpclib.ServerProxy("http://h/", transport=t, version=cv, history=hist)
     base = 0  # index of the first exchange after the last History.clear()
+    shared_mc = jsonrpclib.MultiCall(proxy)
     for pos, si in enumerate(seq):
         name, style = steps[si]
         v = leaves[(vi + pos * 3) % len(leaves)]
@@ -215,7 +217,20 @@ def check_session(case):
                 if hist.request is not None or hist.response is not None or hist.requests or hist.responses:
                     out.bad("C01/history-differs-from-exchanged-texts", "session %r step %d: the history is not empty after clear()" % (case, pos))
                 continue
-            if name == "BATCH":
+            if name in ("MC-NOTIFS", "MC-CALL"):
+                # the same MultiCall object is reused: every execution sends exactly the jobs queued since the previous one
+                if name == "MC-NOTIFS":
+                    shared_mc._notify.f(v)
+                    shared_mc._notify.f(w)
+                    got = list(shared_mc())
+                    want_res, want_log = [], [["f", [v], {}], ["f", [w], {}]]
+                else:
+                    shared_mc.f(v)
+                    got = list(shared_mc())
+                    want_res, want_log = [gen.normalise(r)], [["f", [v], {}]]
+                if not gen.same(got, want_res) or not gen.same(gen.normalise([list(e) for e in reg.log]), gen.normalise(want_log)):
+                    out.bad("C01/session/reused-multicall-differs", "session %r step %d (%s): results %r, server log %r, expected %r / %r" % (case, pos, name, got, reg.log, want_res, want_log))
+            elif name == "BATCH":
                 mc = jsonrpclib.MultiCall(proxy)
                 mc.f(v)
                 mc._notify.f(w)
